@@ -96,7 +96,7 @@ where
     /// # Ok::<(), io::Error>(())
     /// ```
     pub fn read_index(&mut self) -> io::Result<Index> {
-        let mut buf = String::new();
+        let mut buf = Vec::new();
         let mut records = Vec::new();
 
         loop {
@@ -114,20 +114,20 @@ where
     }
 }
 
-fn read_line<R>(reader: &mut R, buf: &mut String) -> io::Result<usize>
+fn read_line_bytes<R>(reader: &mut R, buf: &mut Vec<u8>) -> io::Result<usize>
 where
     R: BufRead,
 {
-    const LINE_FEED: char = '\n';
-    const CARRIAGE_RETURN: char = '\r';
+    const LINE_FEED: u8 = b'\n';
+    const CARRIAGE_RETURN: u8 = b'\r';
 
-    match reader.read_line(buf)? {
+    match reader.read_until(LINE_FEED, buf)? {
         0 => Ok(0),
         n => {
-            if buf.ends_with(LINE_FEED) {
+            if buf.ends_with(&[LINE_FEED]) {
                 buf.pop();
 
-                if buf.ends_with(CARRIAGE_RETURN) {
+                if buf.ends_with(&[CARRIAGE_RETURN]) {
                     buf.pop();
                 }
             }
@@ -138,8 +138,48 @@ where
 }
 
 #[cfg(test)]
+fn read_line<R>(reader: &mut R, buf: &mut String) -> io::Result<usize>
+where
+    R: BufRead,
+{
+    let mut line = Vec::new();
+    let n = read_line_bytes(reader, &mut line)?;
+
+    let s = str::from_utf8(&line).map_err(|e| io::Error::new(io::ErrorKind::InvalidData, e))?;
+    buf.push_str(s);
+
+    Ok(n)
+}
+
+#[cfg(test)]
 mod tests {
     use super::*;
+
+    #[test]
+    fn test_read_index_with_non_utf8_name() -> io::Result<()> {
+        use std::num::NonZero;
+
+        use crate::fai::io::Writer;
+
+        let expected = Index::from(vec![Record::new(
+            &b"sq\xf00"[..],
+            13,
+            5,
+            const { NonZero::new(80).unwrap() },
+            const { NonZero::new(81).unwrap() },
+        )]);
+
+        let mut writer = Writer::new(Vec::new());
+        writer.write_index(&expected)?;
+
+        let src = writer.into_inner();
+        assert_eq!(src, b"sq\xf00\t13\t5\t80\t81\n");
+
+        let mut reader = Reader::new(&src[..]);
+        assert_eq!(reader.read_index()?, expected);
+
+        Ok(())
+    }
 
     #[test]
     fn test_read_line() -> io::Result<()> {
